@@ -72,6 +72,7 @@ impl Prop for C09 {
             max_tags: 2,
             extreme_ids: true,
             tag_values: 0,
+            tag_names: 0,
         };
         history(w, cfg, tier.pick(30, 100)).prop_map(|ops| Case::History { ops }).boxed()
     }
